@@ -14,9 +14,9 @@ import common
 import lit
 
 NAMES = ['A', 'B', 'C', 'PEO', 'N3', 'x_1', 'a1B', 'PS', 'OH', 'Z9']
-# classes 1 (branch_edge_order) and 2 (ring_edge_order) were repaired in /repo (be4ff6e, dd9a0c2): they excuse nothing
-# any more; their witnesses stay in the corpus that runs first
-CLASSES = {3: 'pct_marker_then_digit'}
+# classes 1 (branch_edge_order), 2 (ring_edge_order) and 3 (pct_marker_then_digit) were repaired in /repo (be4ff6e,
+# dd9a0c2, b681517): they excuse nothing any more; their witnesses stay in the corpus that runs first.  No class is open.
+CLASSES = {}
 CLAUSES = {1: 'the writer raised an exception',
            2: 'the reader rejected (raised on) the string the writer produced',
            3: 'the graph read back is not isomorphic to the original (names and bond orders)'}
@@ -139,7 +139,7 @@ class C07(common.Prop):
     # ---------------------------------------------------------------------------- inputs
     def corpus(self, ctx):
         c = [
-            # witnesses of the two REPAIRED classes (a return of the defect is a VIOLATION), then the open class
+            # witnesses of the three REPAIRED classes (a return of the defect is a VIOLATION)
             {'nodes': [[0, 'A'], [1, 'B'], [2, 'C']], 'edges': [[0, 1, 1], [0, 2, 2]]},
             {'nodes': [[0, 'A'], [1, 'B'], [2, 'C']], 'edges': [[0, 1, 1], [1, 2, 1], [0, 2, 2]]},
             PCT_WITNESS,
